@@ -24,7 +24,7 @@ PROP = dict(
           "csv: tables of 1..8 uniquely named identifier columns (given by columns(Array), columns(\"a,b\") or the constructor) and 0..30 rows of "
           "cells: ints (full 32-bit range and small), doubles (random bit patterns mapped into {0,-0} U [2^-962, 2^963), powers of ten, decimal "
           "fractions, 15- and 16-digit values, products with 1e+-30, 1e+-200), empty strings, strings of up to 60 chars (a few of 248..262 and up to 600) over letters, digits . - + "
-          "(never first), blank , ; \" ' _ including the hand-picked quote/separator shapes; tables of >= 2 columns also with setSeparator(';') + setDecimal(',') (the format the reader infers from a ';' header; string "
+          "(never first), blank , ; \" ' _ % including the hand-picked quote/separator shapes and percent shapes (X% full, %s, %d, % d, %%, %5.2f; never a %n form); tables of >= 2 columns also with setSeparator(';') + setDecimal(',') (the format the reader infers from a ';' header; string "
           "cells then do not start with ',') and with setSeparator(TAB); rows written cell by cell with << (int, double, "
           "String, const char*) or as one array Var. Oracle: the file is read back with data() and with nextRow() + operator[](int) + "
           "operator[](name): column names, row count and row lengths equal, string cells come back as strings with identical bytes, int cells as "
